@@ -1,7 +1,7 @@
 """C07 — broker connection (broker/client.go): see coq/Broker/Conn.v, ConnSpec.v, coq/Props/C07.v."""
 import os, sys
 sys.path.insert(0, os.path.dirname(os.path.abspath(__file__)))
-import _bc
+import _bc, _sys
 
 ASSUMPTIONS = _bc.ASSUMPTIONS
 
@@ -10,3 +10,18 @@ def run(ck):
     _bc.run_bc(ck, "c07", set("c20_responses c07_pubrec_after_store c07_no_publish_after_release c07_single_ack c07_pubrel_answered c20_tokens "
                            # added by the audit (audit/C07.md): release only inside the acknowledgement, nothing dropped, the message handed on is the stored one, one hand-over per packet
                            "c07_release_in_ack c20_acted_on c15_release_intact c15_in_order".split()))
+    if ck.replay:
+        return
+    # whole broker, publisher side, with the real MemoryBackend sessions (go/cmd/system c07): what Setup / reuse() does to the
+    # publisher's Incoming store on resume is not visible to the scripted session of the connection-level check
+    ev, di, rule = ck.evaluations, ck.distinct, ck.rule
+    ex = _sys.run_sys(ck, "c07")
+    ck.evaluations = ev + ck.stats.get("direct_clauses_evaluated", 0)
+    ck.distinct = di + ck.stats.get("scenarios", 0)
+    ck.rule = rule + ("; plus whole broker (Engine + MemoryBackend over TCP loopback, go/cmd/system c07): a persistent publisher cut — or displaced by a second "
+                      "connection with its id — at each point of the QoS 2 handshake (PUBLISH sent, PUBREC not read, PUBREC read, PUBREL sent, PUBCOMP not read) and of "
+                      "the QoS 1 handshake, with one and with four ids in flight, resumes and retransmits per protocol: qos2_exactly_once (subscriber and accepted "
+                      "Publish calls on the backend log), qos1_at_least_once, pubrel_answered, session_present, order, publisher_serves (probe); clean reconnect "
+                      "(clean_discards); backend held at the entry of Publish: no PUBACK / PUBCOMP / delivery before it accepts (ack_after_accept)")
+    if ex:
+        ck.samples = ck.samples[:4] + [l for l in ex if l.startswith("direct ")][:3]
